@@ -129,8 +129,8 @@ def run(shard, rec):
                         viol(f'{op} on an element obtained as {how}: {E(alias)} expected {exp[op[1:]]}', 'alias-' + op, case)
         # mixed int operands, both sides: equals converting first
         n = bi if rng.random() < 0.7 else rng.choice([-1, -bi, bi + q, q, q - 1, 2 * q + 1])
-        if d > 1 and n < 0:
-            n = -n
+        if rng.random() < 0.15:
+            n = -n                                         # negative ints too (also in extension fields): whatever converting first gives
         fb = mk(n)
         efb = E(fb)
         mixed = [('add_int', lambda: a + n, lambda: a + fb), ('radd_int', lambda: n + a, lambda: fb + a),
@@ -211,6 +211,20 @@ def run(shard, rec):
         for k in (0, 1, 2, 3, 5, 9):
             two_k = mk(1 << k)
             if F.is_zero(E(two_k)):
+                # 2**k is zero in this field (GF(2), k >= 1): a >> k is a division by zero like a / 2**k, a << k is a * 0
+                for op, fn in (('rshift', lambda: a >> k), ('irshift', lambda: mk(ai).__irshift__(k))):
+                    rec.count('operator_results')
+                    try:
+                        r = fn()
+                        viol(f'{ai} {op} {k} returned {r!r} although 2**{k} = 0 in this field (a / 2**{k} raises ZeroDivisionError)', op, case)
+                    except ZeroDivisionError:
+                        pass
+                    except Exception as e:
+                        viol(f'{ai} {op} {k} raised {type(e).__name__} instead of ZeroDivisionError', op, case)
+                r = a << k
+                rec.count('operator_results')
+                if inv_ok(r, 'lshift') or not F.is_zero(E(r)):
+                    viol(f'{ai} << {k} = {r!r}, expected 0 (2**{k} = 0 in this field)', 'lshift', case)
                 continue
             if other.characteristic != 2 or k == 0:
                 _ = other(3) >> k                       # the same shift amount in another field just before (caches keyed on the amount only would be stale)
